@@ -866,7 +866,7 @@ def run(ctx):
          "recs": [(100, True, 0, 1000), (100, True, 1, 1000), (100, False, 1, 1000), (100, False, 0, 1000)]},
         flame_witness_case(),
     ]
-    n = ctx.n(220, 2500)
+    n = ctx.n(150, 2500)
     d = os.path.join(ctx.scratch, "dir")
     i = -1
     while True:
